@@ -16,5 +16,7 @@ esac
 if [ -n "$PV_COVERAGE" ]; then SAN="$SAN --coverage -DPV_COVERAGE"; fi
 mkdir -p /verif/_work/bin
 g++ -std=c++11 -O1 -g -DPRIMITIV_VERIF_HOOKS $SAN -I$REPO -I$B -I/usr/include/eigen3 -I/verif/harness \
-  /verif/harness/$N.cc -o $OUT -L$B/primitiv -lprimitiv -Wl,-rpath,$B/primitiv -lpthread "$@"
+  /verif/harness/$N.cc -o $OUT.tmp.$$ -L$B/primitiv -lprimitiv -Wl,-rpath,$B/primitiv -lpthread "$@" || { rm -f $OUT.tmp.$$; exit 1; }
+# rename into place: another check may be executing the previous binary of the same name
+mv -f $OUT.tmp.$$ $OUT
 echo $OUT
